@@ -261,6 +261,21 @@ def run(ctx):
     ctx.extra['blend_rs_truncating_casts_listed_not_judged'] = casts
     ctx.extra['blend_rs_assert_sites_listed_not_judged'] = asserts
     ctx.note('range clause not decided: %d truncating casts and %d assert/debug_assert sites in blend.rs depend on it' % (casts, asserts))
+    # explicit assertions: "no debug assertion fires" is not decided for the four channel-range assertions of from_rgba_i32 (the range
+    # clause, listed above).  Any *other* assert! / debug_assert! / panic! / unreachable! site in blend.rs is a new way to stop on some
+    # pixel; it is reported unless the interval domain discharges it (seed C17-k asserted `src_a > 0` after the opacity scaling)
+    import panics as _p
+    import totality as _T
+    bl_bodies = [b for b in fx.bodies if b.name.startswith(BL) and b.kind != 'promoted']
+    for s_ in _p.inventory(fx, bl_bodies):
+        if not s_.kind.startswith('panic:'):
+            continue
+        if s_.body.name == BL + 'from_rgba_i32' and s_.kind == 'panic:debug_assert':
+            continue
+        why = _T.auto(s_)
+        ctx.inst('W5', '%s %s' % (s_.body.name.split('::')[-1], s_.kind), why is not None, '%s in %s: %s' % (s_.kind, s_.body.name.split('asefile::')[-1],
+                 why or 'an assertion in the blend arithmetic that is not shown to hold for every backdrop, source and opacity'), s_.span,
+                 key=ctx.key(s_.body.name, 'W5', s_.kind, ''))
     # W6: the laws are stated over (layer opacity, cel opacity); both rasterisers must hand their product to the blend function
     render.opacity_and_mode(ctx, rule_o='W6', rule_m=None)
     # and no pixel is exempted from the blend function by anything but the canvas clip (an 'identity shortcut' in the rasteriser
